@@ -118,6 +118,11 @@ def gen_case(rng, big=False):
         case["script"] = {str(k): ([] if rng.random() < p_lost else [[rng.randrange(3), "ok"]]) for k in range(total)}
         if rng.random() < 0.5:
             case["jitter"] = 0
+    # buffer size of the burst (decides the receive length) and replies as long as it allows
+    if rng.random() < 0.4:
+        k = rng.choice([5, 6, 7, 8, 9])
+        case["bufsize"] = rng.choice([(1 << k) - d for d in (27, 26, 25, 24, 23, 16, 10)] + [rng.randrange(4, 600)])
+        case["reply_data"] = rng.choice([case["bufsize"], case["bufsize"] - 1, case["bufsize"] // 2, 1])
     # payloads: commands carry 0..256 bytes of data (errors raised by the burst describe the failing packet)
     for b in case["bursts"]:
         b["data"] = [rng.choice([0, 0, 4, 31, 32, 33, 64, 256]) for _ in b["extra"]]
@@ -142,7 +147,13 @@ def run_impl(case):
     script = case["script"]
     state = {"after": {}}
 
+    bufsize = case.get("bufsize", 256)
+    reply_data = case.get("reply_data", 0)
+
     def machine(req):
+        # the reply may be as long as the protocol allows: three argument words and a full buffer of data
+        if reply_data:
+            return simnet.make_reply(req, OK, args=(0, 0x11111111, 0x22222222), data=bytes(range(256)) * 3)[:18 + 8 + reply_data]
         return simnet.make_reply(req, OK, args=(0,))
 
     def scr(k, data):
@@ -187,6 +198,7 @@ def run_impl(case):
     net.send = send
 
     records = []
+    truncated = []
     with simnet.installed(net):
         conn = sc.SCPConnection("sim", n_tries=case["n_tries"], timeout=float(case["timeout"]))
         if case["mask"] != 0xffff:
@@ -199,6 +211,9 @@ def run_impl(case):
                 def cb(packet):
                     did = struct.unpack_from("<I", packet, 14)[0]
                     net.log.append(("cb", i, did))
+                    sent = net.dgram.get(did, {}).get("bytes")
+                    if sent is not None and bytes(packet) != bytes(sent):
+                        truncated.append((i, len(packet), len(sent)))
                 return cb
             sizes = b.get("data") or [0] * len(b["extra"])
             calls = [sc.scpcall(1, 2, 3, 7, i, 0, 0, bytes(range(256))[:sizes[i]], mk_cb(i), float(e))
@@ -209,7 +224,7 @@ def run_impl(case):
             try:
                 from harness import common as _common
                 with _common.cpu_limit(300 if len(calls) > 5000 else 30):
-                    conn.send_scp_burst(256, case["window"], iter(calls))
+                    conn.send_scp_burst(bufsize, case["window"], iter(calls))
                 result = ["done"]
             except sc.TimeoutError as e:
                 result = ["timeout", e.packet.arg1]
@@ -222,7 +237,8 @@ def run_impl(case):
             log = net.log[start:]
             for k in range(sent0, net.n_sent):
                 send_owner[k] = bi
-            records.append({"log": log, "result": result, "burst": bi})
+            records.append({"log": log, "result": result, "burst": bi, "truncated": list(truncated)})
+            del truncated[:]
     return records, net, send_owner
 
 
@@ -277,6 +293,7 @@ def digest(case, records, net, send_owner):
                      "n_cmds": len(b["extra"]), "timeouts": [case["timeout"] + x for x in b["extra"]],
                      "log": obs, "result": rec["result"]},
             "events": events, "result": rec["result"], "obs": obs, "gorigin": gorigin,
+            "truncated": rec.get("truncated", []),
             "gbase": gbase[rec["burst"]],
         })
     return out
@@ -330,6 +347,11 @@ def eval_cases(ctx, cases):
     replies = ctx.lean(reqs)
     for (case, bi, d, what), r in zip(meta, replies):
         desc = case if not case.get("wrap") else dict(case, bursts=[{"n_commands": 65537}])
+        if what == "model" and d.get("truncated"):
+            i_, got_, sent_ = d["truncated"][0]
+            ctx.violation("callback-with-truncated-reply",
+                          "burst %d: the callback of command %d was handed %d bytes, the reply datagram to that command "
+                          "has %d (buffer size %r)" % (bi, i_, got_, sent_, case.get("bufsize", 256)), desc)
         if what == "model" and d["result"][0] == "error":
             ctx.violation("undocumented-exception",
                           "burst %d ended with %s %s: a burst may only complete, raise the timeout error or the "
